@@ -567,3 +567,25 @@ func (p *Prog) transitionOf(fn *ssa.Function, st, kind int64, es bool) []int64 {
 	sort.Slice(out, func(i, j int) bool { return out[i] < out[j] })
 	return out
 }
+
+// idleOutcomeClasses returns the outcome classes handleFrame can reach for a
+// frame of the given kind on a stream that is still idle (any flags).
+func (p *Prog) idleOutcomeClasses(kind int64) (map[string]bool, bool) {
+	hfn := p.ssaFunc("(*serverConn).handleFrame")
+	idle, ok := p.pkgConst("StreamStateIdle")
+	if hfn == nil || !ok {
+		return nil, false
+	}
+	out := map[string]bool{}
+	for bits := 0; bits < 4; bits++ {
+		it := &stInterp{p: p}
+		outs := it.run(hfn, &stEnv{state: idle, kind: kind, hf: false, es: bits&1 != 0, eh: bits&2 != 0, bound: map[ssa.Value]*stOutcome{}}, 3)
+		if it.steps > 400000 || len(outs) == 0 {
+			return nil, false
+		}
+		for _, o := range outs {
+			out[o.Class] = true
+		}
+	}
+	return out, true
+}
